@@ -112,7 +112,7 @@ pub fn run(tier: &str, seed: u64) -> i32 {
     rep.rule = "correlated KOS OT over a simulated channel: for every length (1..300 and 8k+-1, 128k+-1 up to 4097 in quick; every length 1..4096 in thorough) two back-to-back sessions on one channel sharing one session RNG, in both orders (sender-then-receiver, receiver-then-sender), choice vectors all-0 / all-1 / alternating / random, per-index distinct correlations incl. zero. Oracle: both result vectors have the requested length and recv[i] == send0[i] ^ (c[i] ? correlation[i] : 0) with the big-endian block convention. distinct = (length, order, choice class); every case is non-trivial".into();
     rep.assumptions = vec!["block_to_u128 big-endian convention as used for delta".into()];
     let lens = lengths(thorough);
-    let total = lens.len() * 2;
+    let total = lens.len() * if thorough { 4 } else { 3 };
     let outs = parallel_for(total, threads(), |i| one(i, &lens, seed));
     for o in outs {
         rep.evaluations += 1;
